@@ -45,6 +45,24 @@ def case_texts(rec: dict):
     form = rec["form"]
     if form == "direct":
         return text, p_names, plain, None
+    if form == "factory":
+        # the client never names the class: it gets instances from a factory function of the library, so only the
+        # factory and the member names reach the preserve set
+        members = [n for n in p_names if "." in n and not n.endswith("__init__")]
+        if not members or len(members) != len(p_names):
+            return text, p_names, plain, None
+        lib = text.replace("print('end')\n", "")
+        head, uses = [], []
+        for n in members:
+            cls, member = n.split(".")
+            lib += f"\n\ndef make_{cls.lower()}():\n    return {cls}()\n"
+            head.append(f"make_{cls.lower()}")
+            call = how[n]
+            m = re.search(r"\." + re.escape(member) + r"(\([^)]*\))?", call)
+            uses.append(f"print(make_{cls.lower()}().{member}{m.group(1) or ''})")
+        lib += "print('end')\n"
+        client = "from lib import " + ", ".join(sorted(set(head))) + "\n\n" + "\n".join(uses) + "\nprint('client done')\n"
+        return lib, p_names, plain, client
     prefix = {"fromimport": "", "modattr": "lib.", "alias": "l.", "fromalias": "", "star": ""}[form]
     tops = sorted({n.split(".")[0] for n in p_names})
     if form == "star" and any(t_.startswith("_") for t_ in tops):
@@ -102,7 +120,11 @@ def _case(mods, item):
         res["preserve"] = sorted(main._used_names_in_file(Path(tmp, "client.py")))
         mp.current_process()._config["daemon"] = False        # format_files starts a pool; this fork is a leaf of the harness
         try:
-            if via_cli:
+            if via_cli == "both":
+                # `pyrefact project --preserve project`: both files are formatted, each one protected by the other
+                both = [Path(tmp, "lib.py"), Path(tmp, "client.py")]
+                main.format_files(both, preserved_filenames=both, n_cores=1, max_passes=2)
+            elif via_cli:
                 import contextlib
                 import io
                 with contextlib.redirect_stdout(io.StringIO()), contextlib.redirect_stderr(io.StringIO()):
@@ -134,7 +156,7 @@ def main(argv=None) -> int:
     flags = "{<<FALSE, FALSE>>, <<TRUE, TRUE>>}" if t == "quick" else "{<<FALSE, FALSE>>, <<TRUE, FALSE>>, <<FALSE, TRUE>>}"
     mc = "\n".join(["---- MODULE PreserveMC ----", "EXTENDS Preserve", f"MC_Flags == {flags}", "====", ""])
     cfg = "\n".join(["CONSTANTS", f"  Kinds = {kinds}", f"  Styles = {styles}", "  MaxDefs = 2", "  Flags <- MC_Flags",
-                     '  Forms = {"direct", "fromimport", "modattr", "alias", "fromalias", "star"}', "INIT InitP", "NEXT NextP", "INVARIANT PromiseIsExactlyP",
+                     '  Forms = {"direct", "fromimport", "modattr", "alias", "fromalias", "star", "factory"}', "INIT InitP", "NEXT NextP", "INVARIANT PromiseIsExactlyP",
                      "INVARIANT DumpP", "CHECK_DEADLOCK FALSE", ""])
     res = run_tlc("PreserveMC", cfg, generated_files={"PreserveMC.tla": mc}, timeout_s=3000, keep_stdout=False, heap_gb=12)
     rep.add_tlc(res, "Preserve")
@@ -147,7 +169,7 @@ def main(argv=None) -> int:
     others = [r for r in recs if not r["relevant"]]
     n_rel, n_oth = (1000, 150) if t == "quick" else (25000, 3000)
     pick = rng.sample(relevant, min(n_rel, len(relevant))) + rng.sample(others, min(n_oth, len(others)))
-    items = [(r, (i % 5 == 0)) for i, r in enumerate(pick)]
+    items = [(r, ("both" if i % 5 == 1 else i % 5 == 0)) for i, r in enumerate(pick)]
     results = workers.run_tasks(_case, items, init=_init, procs=16, timeout=300, fork_per_task=True)
     n_run = n_changed = 0
     for (rec, via_cli), r in zip(items, results):
@@ -163,10 +185,13 @@ def main(argv=None) -> int:
         if bound is None:
             continue                      # C03
         lost = [n for n in r["must_survive"] if n not in bound]
+        if rec["form"] == "factory" and r["client"] is not None:
+            # the class is not named outside the library and may be renamed; its members must survive as members
+            lost = [n for n in r["must_survive"] if not any(b.endswith("." + n.split(".")[1]) for b in bound)]
         if lost:
             problems.append(f"preserved definitions {lost} are no longer bound under their names")
         if r["client"] is not None:
-            if r.get("client_after") != r["client"]:
+            if r.get("client_after") != r["client"] and via_cli != "both":
                 problems.append("the preserved (client) file itself was modified")
             if r["before"][0] != 0:
                 raise MachineryError(f"the generated client does not run: {r['before']}\n{r['lib']}\n{r['client']}")
